@@ -115,6 +115,23 @@ def explore(ctx):
         dv = 1.0 if vs is None else float(vs.value)
         try:
             m0, m1, m2 = exact_moments(pts, nd)
+            # the same structure far from the origin of the array (a small cloud in a large mosaic / long cube): sizes,
+            # areas and the velocity width do not move, the centroid moves along
+            off = [rng.choice([10 ** 4, 3 * 10 ** 5, 2 ** 22, 10 ** 7]) for _ in range(nd)]
+            names_t = ['major_sigma', 'minor_sigma', 'radius', 'area_exact'] + (['v_rms'] if nd == 3 else [])
+            cls_t = PPStatistic if nd == 2 else PPVStatistic
+            o_near, _ = values(cls_t(stat_of(pts, nd), md), names_t + ['x_cen'])
+            o_far, _ = values(cls_t(stat_of([([a_ + b_ for a_, b_ in zip(p_, off)], w_) for p_, w_ in pts], nd), md), names_t + ['x_cen'])
+            scale_t = max(abs(o_near['major_sigma']), 1e-300)
+            for k_ in names_t:
+                # variances (squares of the widths) are what the arithmetic produces: a width that is exactly zero
+                # near the origin may be 1e-4 far away (square root of a rounding error), its square may not move
+                sq = (lambda x: x) if k_ == 'area_exact' else (lambda x: x * x)
+                if abs(sq(o_far[k_]) - sq(o_near[k_])) > 1e-6 * scale_t ** 2 + 1e-6 * abs(sq(o_near[k_])):
+                    fails.append('%s of the same pixels translated by %s is %r, near the origin %r' % (k_, off, o_far[k_], o_near[k_]))
+            if abs((o_far['x_cen'] - off[-1]) - o_near['x_cen']) > 1e-6:
+                fails.append('x_cen does not follow a translation by %s: %r vs %r' % (off, o_far['x_cen'], o_near['x_cen']))
+            ctx.count('far_from_origin')
             if nd == 2:
                 st = PPStatistic(stat_of(pts, 2), md)
                 obs, units = values(st, ['major_sigma', 'minor_sigma', 'radius', 'area_ellipse', 'area_exact', 'position_angle', 'x_cen', 'y_cen'])
